@@ -477,10 +477,19 @@ def check_buffer_agreement(chk, facts):
     sizes = {}
     for c in facts.crates:
         for r in facts.records("cgnode", c):
-            if r.get("targs") and r["path"].endswith("::alloc_slice"):
+            # the carver (today `alloc_slice`) by name, or any generic function of the scratch-memory module (extra types are harmless)
+            if r.get("targs") and (r["path"].endswith("::alloc_slice") or "outline::glyf::memory::" in r["path"]):
                 for ty, sz, al in r["targs"]:
-                    sizes[ty] = (sz, al)
-    chk.floor("C12-d", "element types carved by alloc_slice", len(sizes), 5)
+                    sizes.setdefault(ty, (sz, al))
+    chk.floor("C12-d", "element types carved from the scratch buffer", len(sizes), 5)
+    _carver = {}
+
+    def is_carver(callee):
+        # a function of the memory module that turns bytes into a typed slice itself (calls the bytemuck cast)
+        if callee not in _carver:
+            cb = facts.body(callee, _fuzzy=False) if callee.startswith(MEM) else None
+            _carver[callee] = cb is not None and any("bytemuck::" in t2.callee and "cast_slice" in t2.callee for _, t2 in cb.calls())
+        return _carver[callee]
 
     def label_name(body, op, helper=False):
         e = expr_of(body, op)
@@ -573,7 +582,7 @@ def check_buffer_agreement(chk, facts):
 
         def on_call2(bb, t, state, env, trace):
             labels, seq = state
-            if t.callee.endswith("memory::alloc_slice"):
+            if is_carver(t.callee):
                 ty = t.d["cargs"].strip("[]")
                 return [((labels, seq + ((count_field(t.args[1]), ty),)), None)]
             if t.callee.startswith(MEM) and depth < 3 and facts.body(t.callee) is not None and t.callee != m.path:
